@@ -79,6 +79,7 @@ func (l *decListener) ProcessEvent(evt *kanzi.Event) {
 type srFrame struct {
 	kind byte // b, P, O, E, T
 	n    int
+	pad  int // extra bytes carried by the frame after the block (the frame is longer than the task's input buffer)
 }
 
 func parseSrFrames(spec string) []srFrame {
@@ -93,6 +94,11 @@ func parseSrFrames(spec string) []srFrame {
 		case 'b', 'O':
 			n, _ := strconv.Atoi(it[1:])
 			out = append(out, srFrame{kind: it[0], n: n})
+		case 'p':
+			// a valid block in a frame padded beyond blockSize + margin: the decoding task has to grow
+			// its input buffer (as for a block the entropy coder expanded); to the model it is a block
+			n, _ := strconv.Atoi(it[1:])
+			out = append(out, srFrame{kind: 'b', n: n, pad: 1500 + (n*7)%3000})
 		}
 		if it[0] == 'E' || it[0] == 'T' {
 			break
@@ -145,6 +151,10 @@ func buildSrStream(frames []srFrame, bs, ck int, hint uint64) ([]byte, [][]byte)
 			}
 			off += f.n
 			p, nb := container.BuildNoneBlock(data, cks, sum(data))
+			if f.pad > 0 {
+				p = append(p[:nb/8:nb/8], bytes.Repeat([]byte{0xA5, 0x3C, 0x7E}, f.pad/3+1)[:f.pad]...)
+				nb += uint64(8 * f.pad)
+			}
 			container.WriteFrame(w, p, nb)
 			if f.kind == 'b' {
 				blocks = append(blocks, data)
@@ -378,6 +388,9 @@ func srExec(op string, res *Result) string {
 	mo := []string{"sr"}
 	for _, k := range []string{"bs", "j", "hint", "from", "to", "frames"} {
 		if v, ok := kv[k]; ok && v != "-" {
+			if k == "frames" {
+				v = strings.ReplaceAll(v, "p", "b")
+			}
 			mo = append(mo, k+"="+v)
 		}
 	}
@@ -415,11 +428,19 @@ func srGen(r *rand.Rand, tier string, n int, emit func(op string, tags ...string
 		nb := r.Intn(14)
 		var fr []string
 		total := 0
+		padded := r.Intn(5) == 0
 		for k := 0; k < nb; k++ {
-			fr = append(fr, fmt.Sprintf("b%d", bs))
+			if padded && r.Intn(3) == 0 {
+				fr = append(fr, fmt.Sprintf("p%d", bs))
+			} else {
+				fr = append(fr, fmt.Sprintf("b%d", bs))
+			}
 			total += bs
 		}
 		fam := "valid"
+		if padded {
+			fam = "padded-frames"
+		}
 		// last block short?
 		if r.Intn(2) == 0 {
 			l := 1 + r.Intn(bs)
@@ -513,7 +534,7 @@ func init() {
 	registerStream(&Stream{
 		Name:     "sr",
 		Watchdog: 60 * time.Second,
-		Rule:     "streams built by the independent container builder (valid NONE/NONE blocks with position-coded data, last block short or full; variants: no end marker, source ending inside a frame, a block failing after the hand-off (bad checksum / bad prologue), an oversize block) read by the real Reader with jobs 1..64, size hint absent/exact/wrong, block range from/to (exhaustive over ranges for 1..12 blocks + random), source delivering short reads, random programs of Read (incl. 0-length) and Close, one sixth with a wrapped source whose Close fails (Close after a partial Read, Reads after it, repeated Close), and four more Reads after the end; distinct_nontrivial = distinct scenarios returning at least one byte",
+		Rule:     "streams built by the independent container builder (valid NONE/NONE blocks with position-coded data, last block short or full, one fifth with frames padded beyond the task input buffer; variants: no end marker, source ending inside a frame, a block failing after the hand-off (bad checksum / bad prologue), an oversize block) read by the real Reader with jobs 1..64, size hint absent/exact/wrong, block range from/to (exhaustive over ranges for 1..12 blocks + random), source delivering short reads, random programs of Read (incl. 0-length) and Close, one sixth with a wrapped source whose Close fails (Close after a partial Read, Reads after it, repeated Close), and four more Reads after the end; distinct_nontrivial = distinct scenarios returning at least one byte",
 		Gen:      srGen,
 		Exec:     srExec,
 	})
